@@ -67,7 +67,7 @@ var metas = map[string]*checkMeta{
 	"C17": {
 		ID: "C17", Level: "exploration",
 		Phases: []phase{{Name: "seg", Pkg: "checks/c17",
-			Quick: tierCfg{Count: 6000, Budget: 60 * time.Second},
+			Quick: tierCfg{Count: 20000, Budget: 60 * time.Second},
 			Thor:  tierCfg{Count: 400000, Budget: 15 * time.Minute}}},
 		Rule: "plan = generated JSON document (value tree over a quote/backslash/slash/star/apostrophe/newline-rich string alphabet, decorated with // and /* */ comments at token boundaries, optional >64KiB pad, EOF placement) x read segmentation (whole, 1 byte, tape-random, small, chunky) x forced read boundary inside a two-byte marker or escape pair. Non-trivial = the document has at least one comment or at least one read returned fewer bytes than available. Distinct = distinct plan bodies.",
 		Components: map[string]string{"json.Unmarshal/NewJsonPlusReader": "real", "input reader (segmentation, EOF)": "sim reader (simnet.Pipe)", "oracle": "encoding/json on the undecorated text (stdlib)"},
@@ -78,7 +78,7 @@ var metas = map[string]*checkMeta{
 	"C09": {
 		ID: "C09", Level: "exploration",
 		Phases: []phase{{Name: "disk", Pkg: "checks/c09",
-			Quick: tierCfg{Count: 4000, Budget: 60 * time.Second},
+			Quick: tierCfg{Count: 10000, Budget: 60 * time.Second},
 			Thor:  tierCfg{Count: 300000, Budget: 15 * time.Minute}}},
 		Rule: "plan = header flags x tag sequence (type any byte, 32-bit timestamps around 2^24 and 2^32-1, sizes 0/1/255/256/65535/65536/2^24-1(rationed)/random) x writer (library muxer or reference writer) x read segmentation of the sim disk. Non-trivial = at least one tag and (a short read occurred or the library muxer wrote the file). Distinct = distinct plan bodies.",
 		Components: map[string]string{"flv.Muxer/flv.Demuxer": "real", "file": "sim disk (simnet.Pipe, recorded writes)", "layout oracle": "reference FLV v1 parser + writer (ref/flv.go, stub written from the spec)"},
@@ -99,10 +99,10 @@ var metas = map[string]*checkMeta{
 	},
 	"C08": {
 		ID: "C08", Level: "fault_enumeration",
-		Phases: []phase{{Name: "faults", Pkg: "checks/c08",
+		Phases: []phase{{Name: "faults", Pkg: "checks/c08", Env: []string{"VERIF_WATCHDOG_MS=900000"},
 			Quick: tierCfg{Count: 60, Budget: 60 * time.Second},
 			Thor:  tierCfg{Count: 1500, Budget: 25 * time.Minute}}},
-		Rule: "plan = workload (RTMP: handshake + message/SetChunkSize sequence over two real endpoints; FLV: header + tag sequence; errors: a nesting of the errors constructors) + one fault dimension; for that workload EVERY position of the dimension is executed: cut at every byte offset 0..len of a direction/file (handshake region sampled at boundaries +-2 and a stride in 90% of RTMP workloads), sticky sentinel read error at every read-call index (with 0 and >0 bytes alongside), sentinel write error at every write-call index (zero/partial/full acceptance), error-free short write at every write-call index, endpoint close at every scheduler step; FLV write faults are followed by demuxing the torn file. evaluations = fault positions executed. Non-trivial = every executed fault position; distinct = distinct (plan body, fault position).",
+		Rule: "plan = workload (RTMP: handshake + message/SetChunkSize sequence over two real endpoints; FLV: header + tag sequence; errors: a nesting of the errors constructors) + one fault dimension; for that workload EVERY position of the dimension is executed: cut at every byte offset 0..len of a direction/file (handshake region sampled at boundaries +-2 and a stride in 90% of RTMP workloads), sticky sentinel read error at every read-call index (with 0 and >0 bytes alongside), sentinel write error at every write-call index (zero/partial/full acceptance), error-free short write at every write-call index, endpoint close at every scheduler step; FLV write faults are followed by demuxing the torn file. A workload with more than 12000 positions in its dimension (thorough tier only) is thinned with a seed-dependent stride, keeping the first and last 200. evaluations = fault positions executed. Non-trivial = every executed fault position; distinct = distinct (plan body, fault position).",
 		Components: map[string]string{"rtmp.Protocol/Handshake, flv.Muxer/Demuxer, errors": "real", "transport/disk": "sim (simnet) with cut/read-error/write-error/short-write/close faults", "baseline": "fault-free run of the same plan gives byte offsets of every message/tag end"},
 		Assumptions: append([]string{"a failed transport stays failed (injected read/write errors are sticky), as real sockets and files behave", "io.EOF and io.ErrUnexpectedEOF are both accepted as the root cause of a cut stream, as the statement says"}, stdAssume...),
 		Faults:      []string{"fault_cut", "fault_read_error", "fault_write_error", "fault_short_write", "fault_close", "torn_files_read", "short_reads", "one_byte_reads"},
@@ -122,7 +122,7 @@ var metas = map[string]*checkMeta{
 	"C03": {
 		ID: "C03", Level: "exploration",
 		Phases: []phase{{Name: "packets", Pkg: "checks/c03",
-			Quick: tierCfg{Count: 2500, Budget: 60 * time.Second},
+			Quick: tierCfg{Count: 8000, Budget: 60 * time.Second},
 			Thor:  tierCfg{Count: 250000, Budget: 20 * time.Minute}}},
 		Rule: "plan = per-endpoint sequence of WritePacket ops over every constructible packet (connect/_result, createStream/_result, publish, play, call, closeStream, Set Chunk Size, Window Ack Size, Set Peer Bandwidth, User Control with 1/4/8-byte data; generated AMF0 trees incl. NaN payloads, ECMA and strict arrays; transaction ids from a small colliding pool plus 1000 and 2^38; responses for outstanding, consumed and never-sent ids; optional causal sync ops) or a typed-wait scenario (ExpectPacket/ExpectMessage after control and command traffic), x segmentation x schedule over 4 tasks after the real handshake; 2% of plans sweep all 65536 user-control event types locally. Non-trivial = at least one packet sent. Distinct = distinct plan bodies.",
 		Components: map[string]string{"rtmp.Protocol (WritePacket, ReadMessage, DecodeMessage, ExpectPacket, ExpectMessage), amf0": "real", "transport": "sim duplex", "transaction model": "sequential map tid->request name replayed over the event log (stub)"},
@@ -137,7 +137,7 @@ var metas = map[string]*checkMeta{
 				Quick: tierCfg{Count: 3000, Budget: 60 * time.Second},
 				Thor:  tierCfg{Count: 250000, Budget: 20 * time.Minute}},
 			{Name: "race", Pkg: "checks/c04", Race: true, Env: []string{"VERIF_ENGINE=race"},
-				Quick: tierCfg{Count: 150, Budget: 60 * time.Second},
+				Quick: tierCfg{Count: 300, Budget: 60 * time.Second},
 				Thor:  tierCfg{Count: 6000, Budget: 15 * time.Minute}},
 		},
 		Rule: "plan = request sequence of endpoint A (connect / createStream with distinct positive ids, up to 12) with a per-request answer mode for the peer (at once, delayed until the next request, at the end; optionally answered twice) x segmentation x schedule tape over the tasks W (marshal, transport write(s), bookkeeping), R (read, decode, lookup) and P (read, respond); the transport deposits W's bytes and then yields, so P and R can run inside W's write call. Phase 'oracle': channel gates, direct oracle on the ordered event log + porcupine cross-check. Phase 'race': the same plans on raw-futex gates in a -race build; any race report with both accesses in go-oryx-lib is a violation. Non-trivial = at least one request. Distinct = distinct plan bodies.",
@@ -149,7 +149,7 @@ var metas = map[string]*checkMeta{
 	"C20": {
 		ID: "C20", Level: "exploration",
 		Phases: []phase{{Name: "clock", Pkg: "checks/c20",
-			Quick: tierCfg{Count: 250, Budget: 60 * time.Second},
+			Quick: tierCfg{Count: 800, Budget: 60 * time.Second},
 			Thor:  tierCfg{Count: 25000, Budget: 20 * time.Minute}}},
 		Rule: "plan = history: counter change points at simulated instants (steady growth, bursts, counter stalls, jumps up to 2^62, reset to a smaller value or 0, start near 2^64), stalls of the source (Count() sleeps 1 ms..400 s of simulated time, making the sampling instants irregular: sub-window and multi-window gaps), Average() calls at arbitrary instants, meter kind (requests / bitrate), Start offset, duration 45 s..2 h of simulated time; getters are read after every sample (1 s polling of the fake clock) and all four before Start. Non-trivial = at least two sampler observations. Distinct = distinct plan bodies.",
 		Components: map[string]string{"kxps.NewKrps/NewKbps, Start, sampler goroutine, getters, Close": "real (public API only)", "clock and 10 s timer": "testing/synctest bubble (go1.26.8): fake clock", "counter source": "scripted seam (stub) with stalls"},
@@ -160,7 +160,7 @@ var metas = map[string]*checkMeta{
 	"C13": {
 		ID: "C13", Level: "exploration",
 		Phases: []phase{{Name: "session", Pkg: "checks/c13",
-			Quick: tierCfg{Count: 700, Budget: 75 * time.Second},
+			Quick: tierCfg{Count: 500, Budget: 75 * time.Second},
 			Thor:  tierCfg{Count: 60000, Budget: 25 * time.Minute}}},
 		Rule: "plan = per-endpoint message sequence (text/binary, sizes around 0, 125/126, 65535/65536, write-buffer size and multiples, up to 3 MiB rationed) x write API per message (WriteMessage, NextWriter+Write with a tape-chosen partition, io.WriteString, io.Copy/ReadFrom, WritePreparedMessage, WriteJSON) x read API (ReadMessage, NextReader with partial reads, ReadJSON) x role x compression (negotiated or not, offered by one side only, level -2..9, toggled per message) x read/write buffer sizes {0 (server reuses the hijacked bufio buffers),1,2,125,126,256,512,1000,4096,65536} x subprotocol lists x transport segmentation x schedule over 4 tasks. Session through the real Dial/Upgrade handshake. Non-trivial = at least one message. Distinct = distinct plan bodies.",
 		Components: map[string]string{"websocket.Dialer.Dial, Upgrader.Upgrade, Conn write/read APIs, compression, prepared messages, JSON": "real", "transport": "sim duplex via Dialer.NetDial and a fake http.Hijacker", "wire oracle": "reference RFC 6455/7692 frame parser, validator and inflater (ref/ws.go, stub written from the RFCs)", "handshake oracle": "independent recomputation of Sec-WebSocket-Accept, extension/subprotocol offer check"},
@@ -171,7 +171,7 @@ var metas = map[string]*checkMeta{
 	"C14": {
 		ID: "C14", Level: "exploration",
 		Phases: []phase{{Name: "reader", Pkg: "checks/c14",
-			Quick: tierCfg{Count: 2500, Budget: 60 * time.Second},
+			Quick: tierCfg{Count: 8000, Budget: 60 * time.Second},
 			Thor:  tierCfg{Count: 250000, Budget: 20 * time.Minute}}},
 		Rule: "plan = frame sequence emitted by the stub peer: either up to 4 uniformly random frames over the abstract alphabet (opcode {0,1,2,8,9,10,3,11,15} x FIN x RSV x right/wrong mask x length {exact; declared 2^31, 2^63-1, 2^63, 2^64-1, 2^64-len} x close code/reason class), or a valid conversation (fragmented messages, pings/pongs in between, close) with one injected oddity; x role (client/server under test) x read limit drawn relative to frame/message sizes x cut at an arbitrary byte offset x read segmentation down to 1 byte x read buffer size x read API. Non-trivial = every plan (each has at least one frame). Distinct = distinct plan bodies.",
 		Components: map[string]string{"websocket.Conn reader (advanceFrame, NextReader, ReadMessage, default ping/close handlers, SetReadLimit)": "real, established through the real Dial/Upgrade handshake", "peer": "reference frame encoder (ref/ws.go, stub)", "model": "conformant RFC 6455 receiver as a small state machine with unbounded-integer length accounting (stub)", "transport": "sim duplex: segmentation, cut"},
@@ -183,10 +183,10 @@ var metas = map[string]*checkMeta{
 		ID: "C15", Level: "exploration",
 		Phases: []phase{
 			{Name: "oracle", Pkg: "checks/c15",
-				Quick: tierCfg{Count: 250, Budget: 75 * time.Second},
+				Quick: tierCfg{Count: 900, Budget: 75 * time.Second},
 				Thor:  tierCfg{Count: 20000, Budget: 25 * time.Minute}},
 			{Name: "race", Pkg: "checks/c15", Race: true, Env: []string{"VERIF_ENGINE=race"},
-				Quick: tierCfg{Count: 60, Budget: 60 * time.Second},
+				Quick: tierCfg{Count: 150, Budget: 60 * time.Second},
 				Thor:  tierCfg{Count: 3000, Budget: 15 * time.Minute}},
 		},
 		Rule: "plan = one endpoint (client or server role, write buffer 1..4096) with tasks: D writes 1..6 data messages (WriteMessage / NextWriter with tape-chosen partition / prepared message; sizes around the write buffer incl. the two-buffer 'extra' frame path on the server), up to 4 control tasks each sending 1..4 ping/pong/close frames with zero, one-hour or tight (1 ms..3 s) deadlines, an optional closer calling Close(), a reader R fed by a stub peer with pings/data/pongs/close, x schedule tape (every transport Write, SetWriteDeadline and Close is a yield point, also between the two buffers of one frame) x stall faults (the scheduler advances the fake clock by 2 ms..5 s at a chosen step while a lock holder may be parked). Phase 'race': same task set on raw-futex gates at API-call boundaries in a -race build. Non-trivial = every plan (at least D and the handshake run). Distinct = distinct plan bodies.",
@@ -198,7 +198,7 @@ var metas = map[string]*checkMeta{
 	"C18": {
 		ID: "C18", Level: "exploration",
 		Phases: []phase{{Name: "race", Pkg: "checks/c18", Race: true, Prepare: prepareC18,
-			Quick: tierCfg{Count: 120, Budget: 60 * time.Second},
+			Quick: tierCfg{Count: 400, Budget: 60 * time.Second},
 			Thor:  tierCfg{Count: 8000, Budget: 20 * time.Minute}}},
 		Rule: "plan = 2..8 tasks, each with 1..6 ops from {WithContext, AliasContext (source nil / own latest context / context without id), I/T/W/E and If/Tf/Wf/Ef with generated messages and context kinds nil / object with Cid() / own latest library-made context / context.Context without id} x schedule tape over the preemption points the go/ast rewrite inserted into a scratch copy of package logger (before every statement mentioning a package-level variable; x += 1 split into load/yield/store) plus one yield before every op. One engine: raw-futex gates in a -race build, so a run yields the oracle verdict and the detector's verdict. Non-trivial = more than 2 task switches. Distinct = distinct plan bodies.",
 		Components: map[string]string{"logger (WithContext, AliasContext, I/T/W/E, If/Tf/Wf/Ef, Switch)": "real code, compiled from a scratch copy of /repo's working tree with inserted simyield.Y() calls (no change to /repo)", "writer": "sim writer installed with logger.Switch (one event per Write)", "scheduler": "tape-driven, raw futex gates invisible to the race detector"},
